@@ -304,6 +304,7 @@ type caseRun struct {
 	ticksWhileParked   int
 	executed           []string
 	closedOnce         map[int]bool
+	errsAck            map[int]int // piece write errors per blob already taken into account by fill
 	inconcl            string
 	wedged             bool
 	actionsWithPending int
@@ -351,6 +352,7 @@ func (cr *caseRun) setup() error {
 	cr.atShutdown = map[int]scheduler.VerifC17TorrentState{}
 	cr.pre = map[int]scheduler.VerifC17TorrentState{}
 	cr.closedOnce = map[int]bool{}
+	cr.errsAck = map[int]int{}
 
 	for i := range cr.blobs {
 		name := fmt.Sprintf("write:%d", i)
@@ -419,6 +421,9 @@ func (cr *caseRun) setup() error {
 		i := cr.blobIndex(core.InfoHash{}, d)
 		if i < 0 {
 			return
+		}
+		if err != nil {
+			cr.run.Count("piece_write_error: "+normErr(err), 1)
 		}
 		if err == nil {
 			cr.run.Count("pieces_written", 1)
@@ -612,6 +617,11 @@ func (cr *caseRun) execStep(idx int, s step) {
 			skip("stopped")
 			return
 		}
+		// Baselines first: if the probe below still sees the torrent in progress,
+		// its completion (store mark, completion notice) comes after them.
+		stored := fmt.Sprintf("stored:%d", s.B)
+		beforeStored := cr.wgate.Count(stored).Applied
+		beforeC := cr.gate.Count(rig.EvComplete)
 		st, ok := cr.L.TorrentState(cr.blobs[s.B].InfoHash())
 		if !ok || !st.Present || st.Complete {
 			skip("no-inprogress-torrent")
@@ -621,10 +631,18 @@ func (cr *caseRun) execStep(idx int, s step) {
 			skip("seeder-blacklisted")
 			return
 		}
-		stored := fmt.Sprintf("stored:%d", s.B)
-		beforeStored := cr.wgate.Count(stored).Applied
-		beforeC := cr.gate.Count(rig.EvComplete)
 		wname := fmt.Sprintf("write:%d", s.B)
+		// A piece write which failed earlier (file removed under the torrent, or
+		// another Torrent instance of a parallel request moved the file to the
+		// cache first) is never retried without the request timers: the torrent
+		// cannot complete any more.
+		if w := cr.wgate.Count(wname); w.Sent-w.SentOK > cr.errsAck[s.B] {
+			cr.errsAck[s.B] = w.Sent - w.SentOK
+			cr.wgate.Release(wname)
+			cr.run.Count("fill_ended_by_piece_write_error", 1)
+			cr.executed = append(cr.executed, "fill-failed("+s.String()+":earlier-piece-write-error)")
+			return
+		}
 		beforeW := cr.wgate.Count(wname)
 		cr.wgate.Release(wname)
 		// The torrent completes, or a piece write fails: a RemoveTorrent that ran
@@ -644,6 +662,8 @@ func (cr *caseRun) execStep(idx int, s step) {
 			return
 		}
 		if writeFailed && cr.wgate.Count(stored).Applied == beforeStored {
+			w := cr.wgate.Count(wname)
+			cr.errsAck[s.B] = w.Sent - w.SentOK
 			cr.run.Count("fill_ended_by_piece_write_error", 1)
 			cr.executed = append(cr.executed, "fill-failed("+s.String()+":piece-write-error)")
 			return
@@ -852,6 +872,17 @@ func (cr *caseRun) order() string {
 		}
 	}
 	return sb.String()
+}
+
+// normErr strips paths from an error text so that it can serve as a counter name.
+func normErr(err error) string {
+	f := strings.Fields(err.Error())
+	for i, w := range f {
+		if strings.HasPrefix(w, "/") {
+			f[i] = "<path>"
+		}
+	}
+	return strings.Join(f, " ")
 }
 
 func classify(err error) string {
@@ -1116,7 +1147,7 @@ func (cr *caseRun) launch(stepIdx, b int) *call {
 }
 
 func stress(t *testing.T, run *ev.Run, base string) {
-	rounds := run.N(0, 400)
+	rounds := run.N(0, 300)
 	const workers = 8
 	var wg sync.WaitGroup
 	for wi := 0; wi < workers; wi++ {
@@ -1216,7 +1247,7 @@ func TestC17(t *testing.T) {
 	run.Assume("the in-process seeder, the stub tracker (static handout + metainfo) and the mock clock behave as their real counterparts")
 	run.Assume("holding the send of an event before it reaches the unbuffered loop channel is a schedule the Go runtime may produce")
 
-	n := run.N(220, 5000)
+	n := run.N(160, 4000)
 	gr := run.Rand("schedules")
 	specs := make([]*caseSpec, n)
 	for i := range specs {
